@@ -976,6 +976,9 @@ def render_abi(g, zoo_mod):
     out.append("use vcore::stdimpls::Model;")
     pairs = []
     ledgers = []
+    # trait names and family labels must be unique across the committed and the additional zoo (the ledger's
+    # file names are derived from the trait name)
+    lp = "" if zoo_mod == "zoo" else "X"
     for k, fam in enumerate(g.families):
         if not fam["abi"]:
             continue
@@ -986,7 +989,7 @@ def render_abi(g, zoo_mod):
             out.append("    use super::*;")
             out.append("    pub type T = vcore::%s::f%d_v%d::F%d;" % (zoo_mod, k, i, k))
             out.append("    #[savefile_abi_exportable(version = %d)]" % i)
-            out.append("    pub trait IfF%d {" % k)
+            out.append("    pub trait If%sF%d {" % (lp, k))
             out.append("        fn echo(&self, x: T) -> T;")
             out.append("        fn take_ref(&self, x: &T) -> u32;")
             out.append("        fn give(&self, seed: u64, maxver: u32) -> T;")
@@ -996,7 +999,7 @@ def render_abi(g, zoo_mod):
             out.append("        fn fut(&self, x: T) -> std::pin::Pin<Box<dyn std::future::Future<Output = T>>>;")
             out.append("        fn mk_cb(&self, tag: u32) -> Box<dyn Fn(T) -> T>;")
             out.append("    }")
-            out.append("    impl IfF%d for FamImpl<T> {" % k)
+            out.append("    impl If%sF%d for FamImpl<T> {" % (lp, k))
             out.append("        fn echo(&self, x: T) -> T { self.see(\"echo\", &x); x }")
             out.append("        fn take_ref(&self, x: &T) -> u32 { self.see(\"take_ref\", x); 7 }")
             out.append("        fn give(&self, seed: u64, maxver: u32) -> T { self.make(seed, maxver) }")
@@ -1006,7 +1009,7 @@ def render_abi(g, zoo_mod):
             out.append("        fn fut(&self, x: T) -> std::pin::Pin<Box<dyn std::future::Future<Output = T>>> { self.see(\"fut\", &x); Box::pin(async move { crate::c09::YieldOnce(false).await; x }) }")
             out.append("        fn mk_cb(&self, tag: u32) -> Box<dyn Fn(T) -> T> { let seen = self.seen_handle(); Box::new(move |x: T| { seen.lock().unwrap_or_else(|p| p.into_inner()).push((\"mk_cb\", x.to_val())); x }) }")
             out.append("    }")
-            out.append("    pub fn call(conn: &AbiConnection<dyn IfF%d>, op: &Op) -> Result<Val, String> {" % k)
+            out.append("    pub fn call(conn: &AbiConnection<dyn If%sF%d>, op: &Op) -> Result<Val, String> {" % (lp, k))
             out.append("        model_call::<T>(op, |x| conn.echo(x), |x| conn.take_ref(x), |s, m| conn.give(s, m), |x| conn.echo_vec(x), |x| conn.opt_res(x), |x, f| conn.via_cb(x, f), |x| conn.fut(x), |t| conn.mk_cb(t))")
             out.append("    }")
             out.append("}")
@@ -1015,8 +1018,8 @@ def render_abi(g, zoo_mod):
             for j in range(n):
                 out.append("pub fn mk_%d_%d_%d(seen: Seen) -> Result<Box<dyn FnMut(&Op) -> Result<Val, String>>, String> {" % (k, i, j))
                 out.append("    let imp = FamImpl::<if%d_v%d::T>::new(seen);" % (k, j))
-                out.append("    let boxed: Box<dyn if%d_v%d::IfF%d> = Box::new(imp);" % (k, j, k))
-                out.append("    let conn = vcore::util::catch(|| unsafe { AbiConnection::<dyn if%d_v%d::IfF%d>::from_boxed_trait_for_test(<dyn if%d_v%d::IfF%d as AbiExportable>::ABI_ENTRY, boxed) })" % (k, i, k, k, j, k))
+                out.append("    let boxed: Box<dyn if%d_v%d::If%sF%d> = Box::new(imp);" % (k, j, lp, k))
+                out.append("    let conn = vcore::util::catch(|| unsafe { AbiConnection::<dyn if%d_v%d::If%sF%d>::from_boxed_trait_for_test(<dyn if%d_v%d::If%sF%d as AbiExportable>::ABI_ENTRY, boxed) })" % (k, i, lp, k, k, j, lp, k))
                 out.append("        .map_err(|p| format!(\"panic: {}\", p))?.map_err(|e| format!(\"{:?}\", e))?;")
                 out.append("    Ok(Box::new(move |op: &Op| if%d_v%d::call(&conn, op)))" % (k, i))
                 out.append("}")
@@ -1024,13 +1027,13 @@ def render_abi(g, zoo_mod):
     out.append("pub fn pairs() -> Vec<PairEntry> {")
     out.append("    vec![")
     for (k, i, j) in pairs:
-        out.append("        PairEntry { family: \"F%d\", index: %d, caller: %d, callee: %d, shape_caller: <if%d_v%d::T as Model>::shape, shape_callee: <if%d_v%d::T as Model>::shape, mk: mk_%d_%d_%d }," % (k, k, i, j, k, i, k, j, k, i, j))
+        out.append("        PairEntry { family: \"%sF%d\", index: %d, caller: %d, callee: %d, shape_caller: <if%d_v%d::T as Model>::shape, shape_callee: <if%d_v%d::T as Model>::shape, mk: mk_%d_%d_%d }," % (lp, k, k, i, j, k, i, k, j, k, i, j))
     out.append("    ]")
     out.append("}")
     out.append("pub fn ledgers() -> Vec<LedgerEntry> {")
     out.append("    vec![")
     for (k, i) in ledgers:
-        out.append("        LedgerEntry { family: \"F%d\", version: %d, verify: |dir| savefile_abi::verify_compatiblity::<dyn if%d_v%d::IfF%d>(dir).map_err(|e| format!(\"{:?}\", e)) }," % (k, i, k, i, k))
+        out.append("        LedgerEntry { family: \"%sF%d\", version: %d, verify: |dir| savefile_abi::verify_compatiblity::<dyn if%d_v%d::If%sF%d>(dir).map_err(|e| format!(\"{:?}\", e)) }," % (lp, k, i, k, i, lp, k))
     out.append("    ]")
     out.append("}")
     return "\n".join(out) + "\n"
